@@ -1,10 +1,10 @@
 #!/venv/bin/python
 """Runs every check against every collected behaviour-preserving refactoring: all must stay silent (exit 0).
-usage: refac_matrix.py [ids...]"""
+usage: refac_matrix.py [--props=C05,C14] [--write] [ids...]   (--write records the result in refactorings/*/meta.json)"""
 import json, multiprocessing as mp, shutil, subprocess, sys, tempfile
 from pathlib import Path
 
-VERIF = Path("/verif")
+VERIF = Path(__file__).resolve().parents[1]
 sys.path.insert(0, str(VERIF / "engine"))
 PIDS = [f"C{i:02d}" for i in range(1, 18)]
 
@@ -37,7 +37,11 @@ def one(d):
 
 
 def main():
-    args = sys.argv[1:]
+    global PIDS
+    args = [a for a in sys.argv[1:] if not a.startswith("--")]
+    for a in sys.argv[1:]:
+        if a.startswith("--props="):
+            PIDS = a.split("=", 1)[1].split(",")
     ds = [d for d in sorted((VERIF / "refactorings").iterdir()) if (d / "meta.json").exists() and (not args or d.name in args)]
     with mp.get_context("fork").Pool(16) as pool:
         results = pool.map(one, ds)
@@ -45,13 +49,14 @@ def main():
     for name, out in results:
         meta_p = VERIF / "refactorings" / name / "meta.json"
         meta = json.loads(meta_p.read_text())
-        meta["checks"] = {"silent": not out, "alarms": out}
-        meta_p.write_text(json.dumps(meta, indent=1) + "\n")
+        if "--write" in sys.argv:
+            meta["checks"] = {"silent": not out, "alarms": out}
+            meta_p.write_text(json.dumps(meta, indent=1) + "\n")
         if out:
             noisy += 1
             print(f"{name}: ALARM")
             for pid, lines in out.items():
-                for l in lines[:3]:
+                for l in lines[:int(__import__('os').environ.get('MAXLINES', '3'))]:
                     print(f"    {pid}: {l}")
         else:
             print(f"{name}: silent")
